@@ -697,7 +697,7 @@ impl Exec {
                     self.started_ok = false;
                 }
                 self.twin("check", &res, o);
-                if self.in_variant && !matches!(r, Ok(Ok(_))) && self.variant_prop != "C07" {
+                if self.in_variant && !matches!(r, Ok(Ok(_))) && self.variant_prop != "C07" && self.variant_prop != "C04" {
                     // resumed / retried sessions must end in a successful check
                     let (p, k) = (self.variant_prop.clone(), self.variant_key.clone());
                     o.fail_key(&p, &k, format!("final check of the resumed session: {}", res));
@@ -1026,12 +1026,14 @@ impl Exec {
                         };
                         if !matches!(v, Ok(Ok(()))) {
                             bad.push(i);
-                            o.fail_key("C04", "complete-but-invalid", format!("slot {} reads as completed firmware but fails validation", i));
+                            let key = if self.in_variant && self.variant_prop == "C04" { self.variant_key.clone() } else { "complete-but-invalid".to_string() };
+                            o.fail_key("C04", &key, format!("slot {} reads as completed firmware but fails validation", i));
                         }
                         if self.last_fw == Some(i) && !self.image.is_empty() && w[3] as usize == self.n && w[2] as usize == self.sz {
                             let b = i * self.slot + 0x4400;
                             if self.f.mem[b..b + self.image.len()] != self.image[..] {
-                                o.fail_key("C04", "complete-but-different", format!("slot {} reads as completed firmware of the interrupted session but differs from the transmitted image", i));
+                                let key = if self.in_variant && self.variant_prop == "C04" { self.variant_key.clone() } else { "complete-but-different".to_string() };
+                                o.fail_key("C04", &key, format!("slot {} reads as completed firmware of the interrupted session but differs from the transmitted image", i));
                             }
                         }
                     }
